@@ -196,6 +196,11 @@ class PathEval:
             return {"eq": v == 0, "ne": v != 0, "lt": v < 0, "le": v <= 0, "gt": v > 0, "ge": v >= 0, "rd": True, "no": False}[pred]
         return None
 
+    def dom_key(self, x, y):
+        """canonical key of the undecided comparison x < y (None: do not share)"""
+        d = (x - y).normal(self.cons)
+        return "lt|%r|%r" % (sorted(d.n.items()), sorted(d.d.items()))
+
     def dom_call(self, name, args):
         """value of a call of a pure libm function / intrinsic, or raise Unsupported"""
         raise Unsupported("call of %s (outside the polynomial domain)" % name)
@@ -220,6 +225,8 @@ class PathEval:
             try:
                 results.append(self._run_path(dec))
             except _NeedDecision as nd:
+                if nd.cond in dec:
+                    raise Unsupported("decision loop on " + str(nd.cond)[:60])
                 for b in (True, False):
                     if not self.allow(dec, nd.cond, b):
                         continue
@@ -363,9 +370,22 @@ class PathEval:
         if ins.op == "fcmp":
             m = re.match(r"^fcmp (?:\w+ )*?(oeq|one|olt|ole|ogt|oge|ueq|une|ult|ule|ugt|uge|ord|uno) (?:double|float) (\S+?), (\S+)$", ins.text.strip())
             if m:
-                r = self.dom_cmp(m.group(1)[1:], self._value(m.group(2), vals), self._value(m.group(3), vals))
+                pred = m.group(1)[1:]
+                a, b = self._value(m.group(2), vals), self._value(m.group(3), vals)
+                r = self.dom_cmp(pred, a, b)
                 if r is not None:
                     return r
+                # share the decision between comparisons of equal abstract values (the same test evaluated twice by two
+                # inlined callees must not be decided differently on one path): canonical form "x < y"
+                flip = {"lt": (False, False), "gt": (True, False), "ge": (False, True), "le": (True, True)}
+                if pred in flip:
+                    swap, neg = flip[pred]
+                    x, y = (b, a) if swap else (a, b)
+                    key = self.dom_key(x, y)
+                    if key is not None:
+                        if key in dec:
+                            return dec[key] != neg
+                        raise _NeedDecision(key)
         raise _NeedDecision(c)
 
     def _value(self, v, vals, depth=0):
